@@ -171,15 +171,45 @@ def run_session(case):
             rec.update({"unirks": [], "unids": {"out": "", "obs": EMPTY_OBS}, "subs": []})
         return rec
 
+    given = None
     try:
         entry = case.get("entry", 0) % 7
-        ds = core.build_dataset(nm.raw_dataset(case["D"]), 6 if entry in (4, 5) else entry, name="session")
+        if entry == 1:
+            # the constructor receives a list that the caller keeps (and later reuses, see the scribble step)
+            given = [_impl["Ranking"]([set(b) for b in r]) for r in nm.raw_dataset(case["D"])]
+            ds = Dataset(given)
+            ds.name = "session"
+        else:
+            ds = core.build_dataset(nm.raw_dataset(case["D"]), 6 if entry in (4, 5) else entry, name="session")
         out = "ok"
     except Exception as ex:
         ds, out = None, type(ex).__name__
     first = step("construct", case["D"], out, ds, {})
     if case.get("log_construct", 1):
         steps.append(first)
+
+    def scribble():
+        # the caller modifies ITS objects: the list it gave to the constructor, the matrices, the universe and the
+        # unified rankings it received (all of them fresh copies); the dataset must not change
+        pre = _rk_of(ds, nm)
+        try:
+            if given is not None:
+                given.append(_impl["Ranking"]([{nm.names[ne]}]))
+                if len(given) > 1:
+                    given[0] = given[-1]
+            m = ds.get_positions()
+            m += 3
+            b = ds.get_bucket_ids()
+            b[:] = -5
+            ds.universe.clear()
+            ds.unified_rankings().clear()
+            for r in ds.rankings:
+                r.domain.clear()
+        except Exception:
+            pass
+        steps.append(step("scribble", pre, "ok", ds, {}))
+    if ds is not None and case.get("scribble", (case.get("id", 0) % 3 == 0)):
+        scribble()
     if ds is not None:
         for op in case["ops"]:
             pre = _rk_of(ds, nm)
@@ -195,6 +225,8 @@ def run_session(case):
             except Exception as ex:
                 out = type(ex).__name__
             steps.append(step(op["op"], pre, out, ds, {k: v for k, v in op.items() if k in ("S", "p", "q")}))
+        if case["ops"] and case.get("scribble", (case.get("id", 0) % 3 == 1)):
+            scribble()
     return {"id": case["id"], "steps": steps}
 
 
